@@ -31,6 +31,7 @@ MODELS = [
         M(a=I(4), scalarize=NUL()),
         M(a=I(4), addunk=NUL()),
         M(a=I(4), boom=NUL()),
+        M(a=I(4), boom2=NUL()),
     ]),
     ('uni', Z.Uni, [Z.Uni, Z.Sub], [
         M(a=I(1), b=F(1.5), c=B(True), d=M(x=I(1))),
@@ -68,7 +69,23 @@ MODELS = [
         M(x=I(1)), Q(S('a')), ('s', 'tag:yaml.org,2002:null', 'null')]),
     ('top_any', Any, [], [M(k=Q(I(1), M(x=S('s'))))]),
     ('top_opt_date', Optional[datetime.date], [], [TS('2001-12-14')]),
+    # ---- C04: a registered class (Trap) that no typed position admits
+    ('trap_loose', Z.Loose2, [Z.Loose2, Z.Sub, Z.Trap], [
+        M(a=M(x=I(1)), b=M(x=I(2)), s=M(x=I(3)), l=Q(M(x=I(4))),
+          d=M(k=M(x=I(5))), zz=M(x=I(6))),
+        M(a=Q(M(k=M(x=I(1)))), zz=Q(Q(M(x=I(2))))),
+    ]),
+    ('trap_any', Any, [Z.Trap, Z.Sub], [
+        M(x=I(1)), Q(M(x=I(1)), M(k=M(x=I(2)))),
+    ]),
+    ('trap_dict', Dict[str, Any], [Z.Trap], [M(k=M(x=I(1)), j=Q(M(x=I(2))))]),
+    ('trap_typed', Z.Holder, [Z.Holder, Z.Sub, Z.Trap], [
+        M(s=M(x=I(1)), ss=Q(M(x=I(2))), u=M(x=I(3))),
+    ]),
 ]
+CORE = {m[0] for m in MODELS if not m[0].startswith('trap_')}
+GROUP_C04 = {'trap_loose', 'trap_any', 'trap_dict', 'trap_typed', 'loose',
+             'top_any'}
 MODEL_IDX = {m[0]: i for i, m in enumerate(MODELS)}
 
 _LOADERS = {}
@@ -93,10 +110,11 @@ def base_docs():
 
 BASES = base_docs()
 
+# '<<' is a real merge key (tag merge); '<<str' is the quoted string "<<"
 KEYS = ['zz', '<<', 'a', '_yatiml_extra', 'self', 'b', 'x', 'p', 's',
-        'center', 'radius', 'n']
-VALS = ['1', 'abc', 'true', '', '1.5', '2001-12-14', '-', 'red', '0x1F',
-        '1_000', '.inf', '13', 'boom', 'null']
+        'center', 'radius', 'n', '{0} {x} %s', '<<str']
+VALS = ['1', 'abc', 'true', '', '{0} {x} %s', '1.5', '2001-12-14', '-', 'red',
+        '0x1F', '1_000', '.inf', '13', 'boom', 'null', '14', '15']
 
 PY = 'tag:yaml.org,2002:python/'
 # (tag, value) pairs for replacement scalars: each core tag with a well-formed
@@ -121,6 +139,8 @@ SCALAR_PAIRS = [
     (T_STR, 'boom'), ('tag:yaml.org,2002:bool', 'yes'),
     ('tag:yaml.org,2002:float', '.inf'), ('tag:yaml.org,2002:int', '0x1F'),
     ('tag:yaml.org,2002:value', '='), ('tag:yaml.org,2002:merge', '<<'),
+    ('tag:yaml.org,2002:int', '14'), ('tag:yaml.org,2002:int', '15'),
+    (T_STR, '{0} {x} %s'),
 ]
 COLL_TAGS = [T_SEQ, T_MAP, T_STR, 'tag:yaml.org,2002:set',
              'tag:yaml.org,2002:omap', 'tag:yaml.org,2002:pairs',
@@ -134,11 +154,14 @@ NPAIR = len(SCALAR_PAIRS)
 NCOLL = len(COLL_TAGS)
 # rsel layout: [0, NPAIR) scalar pairs | 4 collection kinds x COLL_TAGS |
 #              6 variants with the FREE (non-core) tag
-NRSEL = NPAIR + 4 * NCOLL + 6
-QUICK_RSEL = (list(range(0, 8)) + [9, 11, 15, 19] +
+NRSEL = NPAIR + 4 * NCOLL + 6 + 1
+# the last one is a "merge payload": a mapping that offers a bool for the
+# optional int parameter f (isinstance(True, int) holds in Python)
+PAYLOAD_KEYS = ['f']      # an optional int parameter of Doc, Perm, Picky
+QUICK_RSEL = (list(range(0, 8)) + [9, 11, 15, 19, NPAIR - 1] +
               [NPAIR + k * NCOLL + t for k in range(2) for t in (0, 1)] +
               [NPAIR + 2 * NCOLL, NPAIR + 3 * NCOLL + 1, NPAIR + 6] +
-              [NPAIR + 4 * NCOLL + k for k in (0, 2, 3)])
+              [NPAIR + 4 * NCOLL + k for k in (0, 2, 3, 6)])
 
 
 def replacement(rsel: int, tag: str, lc):
@@ -156,7 +179,13 @@ def replacement(rsel: int, tag: str, lc):
     r -= 4 * NCOLL
     if r < 2:
         return docs.replacement(0, tag, r, ['abc', '1'], lc)
-    return docs.replacement(r - 1, tag, 0, [''], lc)
+    if r < 6:
+        return docs.replacement(r - 1, tag, 0, [''], lc)
+    m = lc.next()
+    return yaml.MappingNode(T_MAP, [
+        (yaml.ScalarNode(T_STR, k, m, m),
+         yaml.ScalarNode('tag:yaml.org,2002:bool', 'true', m, m))
+        for k in PAYLOAD_KEYS], m, m)
 
 
 MUT_REPLACE, MUT_RETAG, MUT_DROP, MUT_DUP, MUT_ADD, MUT_SETVAL, MUT_NONE = \
@@ -188,8 +217,12 @@ def _slices(pred):
     return out
 
 
-ALL_SLICES = _slices(lambda mi, bi, n: True)
-QUICK_SLICES = _slices(lambda mi, bi, n: bi == 0)
+ALL_SLICES = _slices(lambda mi, bi, n: MODELS[mi][0] in CORE)
+QUICK_SLICES = _slices(lambda mi, bi, n: bi == 0 and MODELS[mi][0] in CORE)
+C04_SLICES = _slices(lambda mi, bi, n: MODELS[mi][0] in GROUP_C04)
+C04_QUICK_SLICES = _slices(
+    lambda mi, bi, n: MODELS[mi][0] in GROUP_C04 and (
+        bi == 0 or MODELS[mi][0].startswith('trap_')))
 
 
 def slice_for(model: str, bi: int, group: int, sub: int = 0) -> int:
@@ -205,7 +238,7 @@ class Limits:
     selector values cost nothing."""
     def __init__(self, quick: bool):
         self.rsel = QUICK_RSEL if quick else list(range(NRSEL))
-        self.nvals = 4 if quick else len(VALS)
+        self.nvals = 5 if quick else len(VALS)
         self.nkeys = 3 if quick else len(KEYS)
         self.nretags = 10 if quick else len(RETAGS)
 
@@ -250,7 +283,13 @@ def mutated(mi: int, bi: int, site: int, mut: int, rsel: int, tag: str,
         if rsel >= len(lim.rsel) or ksel >= lim.nkeys:
             return None
         m = b.lc.next()
-        k = yaml.ScalarNode(T_STR, pick(KEYS, ksel), m, m)
+        kname = pick(KEYS, ksel)
+        if kname == '<<':
+            k = yaml.ScalarNode('tag:yaml.org,2002:merge', '<<', m, m)
+        elif kname == '<<str':
+            k = yaml.ScalarNode(T_STR, '<<', m, m)
+        else:
+            k = yaml.ScalarNode(T_STR, kname, m, m)
         v = replacement(pick(lim.rsel, rsel), tag, b.lc)
         node.value = list(node.value) + [(k, v)]
     elif mut == MUT_SETVAL:
@@ -285,8 +324,8 @@ def explore(sl: int, site: int, mut: int, rsel: int, tag: str, vsel: int,
         return None
     if sub is not None and site % NSUB != sub:
         return None
-    if n <= 7:
-        lim = FULL          # tiny documents: full palettes in every tier
+    if MODELS[mi][0] == 'picky' and mut != MUT_ADD:
+        lim = FULL          # its interesting values are late in the palettes
     b = mutated(mi, bi, site, mut, rsel, tag, vsel, ksel, lim)
     if b is None:
         return None
@@ -296,18 +335,18 @@ def explore(sl: int, site: int, mut: int, rsel: int, tag: str, vsel: int,
 
 
 MUTANT_PRE = """
-    pre: 0 <= site < 28 and 0 <= mut < 7 and 0 <= rsel < 76
+    pre: 0 <= site < 28 and 0 <= mut < 7 and 0 <= rsel < 80
     pre: 1 <= len(tag) <= 40 and tag != '!'
     pre: not tag.startswith('tag:yaml.org,2002:')
-    pre: 0 <= vsel < 14 and 0 <= ksel < 12
+    pre: 0 <= vsel < 17 and 0 <= ksel < 14
 """
 MUTANT_BOUND = (
     'one slice per (model, base document, mutation group; REPLACE also by '
     'site mod 3): every single-point mutation (7 kinds) at every node; '
-    'replacement/added nodes: 34 (tag, value) scalar pairs, 4 collection '
-    'shapes x 9 tags, 6 shapes with a FREE non-core tag (quick: 22 of these '
-    '76); retag with the free tag or 21 (quick 10) palette tags; 14 (quick '
-    '4) palette values; 12 (quick 3) palette keys; quick tier: first base '
+    'replacement/added nodes: 37 (tag, value) scalar pairs, 4 collection '
+    'shapes x 9 tags, 6 shapes with a FREE non-core tag, a merge payload mapping (quick: 24 of these '
+    '80); retag with the free tag or 21 (quick 10) palette tags; 17 (quick '
+    '4) palette values; 14 (quick 3) palette keys incl. a real merge key; quick tier: first base '
     'document of each model')
 PIPELINE_ENCODED = [
     'yatiml.loader.LoadFunction.__call__', 'Loader.__init__',
